@@ -31,6 +31,7 @@ import (
 	"errors"
 	"fmt"
 	"net/url"
+	"os"
 	"slices"
 	"strconv"
 	"strings"
@@ -917,7 +918,14 @@ func TestCheck(t *testing.T) {
 		var raw json.RawMessage
 		only, _ = c.LoadReplay(&raw)
 	}
-	want := func(part string) bool { return only == "" || only == part }
+	// development aid: VERIF_C16_ONLY=<prefix> runs only the parts whose name starts with it (never set by vcheck)
+	dev := os.Getenv("VERIF_C16_ONLY")
+	want := func(part string) bool {
+		if dev != "" && c.ReplayFile == "" {
+			return strings.HasPrefix(part, dev)
+		}
+		return only == "" || only == part
+	}
 
 	for router := 0; router < 2; router++ {
 		if !want("hist-" + rig.Routers[router]) {
